@@ -78,5 +78,24 @@ PROPS["C14"] = {
     "assumptions": ["ASCII names (strings.ToUpper/ToLower on the first byte)"],
 }
 
+PROPS["C15"] = {
+    "variants": ["v1", "v2"],
+    "lean": ["Gengo.Props.C15"],
+    "level": "proof",
+    "level_text": "Kernel-checked theorems on the model of SnippetWriter.Do/Append/Merge/Dup over writers with arbitrary failure schedules "
+                  "(optionally wrapped in an ErrorTracker): with no prior error Do writes exactly the engine's chunks; after the first parse, "
+                  "execution or write error nothing reaches the writer and the recorded error never changes; Dup/Merge preserve the error; "
+                  "Args.With/WithArgs allocate a new map, leave every existing map unchanged, and give the documented winner. text/template is "
+                  "a parameter whose behaviour is taken from the real engine on every generated case.",
+    "level_note": "Trusted: Lean kernel, the model (validated by correspondence on chains with injected write faults), text/template "
+                  "(external: its chunks and error for each template are input facts recomputed at run time), io.Copy's single Write for "
+                  "in-memory readers.",
+    "rule": "chains of 1..6 Do/Append/Merge/Dup calls over 19 templates (valid, unparsable, failing at execution; multi-chunk) x 5 delimiter "
+            "pairs x subsets of 3 naming systems, on plain and ErrorTracker-wrapped writers with a write failure injected at a random call "
+            "index of writer A and/or B; every fourth case an Args.With/WithArgs composition with clashing keys. Non-trivial = at least two "
+            "operations; distinct = distinct history.",
+    "assumptions": ["the data passed to Do is one fixed Args value (a type, a string, an int, a list)"],
+}
+
 # properties not claimed, with the reason (kept current by hand)
 NOT_APPLICABLE = {}
